@@ -303,6 +303,7 @@ func shrinkFO(sc *Scenario, yield func(c *Scenario) bool) {
 				func(o *FOOp) bool { ok := o.BuildFail; o.BuildFail = false; return ok },
 				func(o *FOOp) bool { ok := o.BuildErrKind != ""; o.BuildErrKind = ""; return ok },
 				func(o *FOOp) bool { ok := o.NestKey != 0; o.NestKey = 0; return ok },
+				func(o *FOOp) bool { ok := o.BuildNil; o.BuildNil = false; return ok },
 				func(o *FOOp) bool { ok := o.BuildPanic; o.BuildPanic = false; return ok },
 				func(o *FOOp) bool { ok := o.HasCtxTTL; o.HasCtxTTL = false; o.CtxTTLNs = 0; return ok },
 				func(o *FOOp) bool { ok := o.SkipRead; o.SkipRead = false; return ok },
